@@ -645,7 +645,7 @@ func c03r4(c *RC) {
 		runnerOnly = true
 		fl.Walk(fl.Entry(), "", nil, Visitor{NoFacts: true,
 			Enter: func(from, to *cfg2Block, x string, s *Step) (string, bool) {
-				if id, ok := ast.Unparen(fl.edgeCond(from)).(*ast.Ident); ok && id.Name == "runner" && from.Succs[0] == to {
+				if id, ok := ast.Unparen(fl.edgeCond(from)).(*ast.Ident); ok && id.Name == c03runnerVar(host) && from.Succs[0] == to {
 					return "runner", false
 				}
 				return x, false
@@ -706,7 +706,8 @@ func c03r5(c *RC) {
 			}
 			return true
 		})
-		ok := strings.Contains(txt, "s.err!=nil") && strings.Contains(txt, "len(s.todo)==0") && strings.Contains(txt, "len(s.pending)==0") && strings.Count(txt, "||") == 1 && strings.Count(txt, "&&") == 1
+		rv := recvOf(fn)
+		ok := strings.Contains(txt, rv+".err!=nil") && strings.Contains(txt, "len("+rv+".todo)==0") && strings.Contains(txt, "len("+rv+".pending)==0") && strings.Count(txt, "||") == 1 && strings.Count(txt, "&&") == 1
 		c.Check(ok, "exec.(*state).Done|done-iff-error-or-nothing-outstanding", pr.Pos(fn.Body.Pos()), "state.Done() is "+txt+"; it must be err != nil || (no todo && no pending): Eval would return success with tasks outstanding")
 	}
 }
@@ -760,4 +761,22 @@ func c03handedOver(c *RC, fn *Func, task string) bool {
 		c.Except(fn.QName(), "goroutine entered with the task lock held: the lock is handed over by the spawning loop body, and this goroutine is the one that unlocks")
 	}
 	return unlocks
+}
+
+// c03runnerVar: the boolean (declared in the function enclosing the waiter
+// literal) that records whether this evaluation moved the task INIT->WAITING,
+// i.e. the variable assigned from `<task>.state == TaskInit`.
+func c03runnerVar(host *Func) string {
+	name := "runner"
+	for f := host; f != nil && f.Body != nil; f = f.Parent {
+		ast.Inspect(f.Body, func(n ast.Node) bool {
+			if a, ok := n.(*ast.AssignStmt); ok && len(a.Lhs) == 1 && len(a.Rhs) == 1 {
+				if be, ok := ast.Unparen(a.Rhs[0]).(*ast.BinaryExpr); ok && be.Op == token.EQL && strings.HasSuffix(expr(be.X), ".state") && expr(be.Y) == "TaskInit" {
+					name = expr(a.Lhs[0])
+				}
+			}
+			return true
+		})
+	}
+	return name
 }
